@@ -14,8 +14,34 @@ sys.path.insert(0, os.path.join(ROOT, "harness"))
 kf = json.load(open(os.path.join(ROOT, "KNOWN_FINDINGS.json")))
 claims = json.load(open(os.path.join(ROOT, "harness", "claims.json")))
 out = []
-MODELS = {"C01": "Model/{Poly,HPoly,Samples,ChkC01}.v (+Adj for the walk)", "C02": "Model/{Poly,HPoly,View,Penalty,ChkC02}.v + Gen/Gen_View.v",
-          "C03": "Model/{Poly,HPoly,ChkC03}.v (+Adj)", "C13": "Model/{Vars,ChkC13}.v"}
+TH = os.path.join(ROOT, "coq", "theories")
+
+
+def deps(rel, seen):
+    """transitive `From Dimod Require Import` closure of one .v file (Model/ and Gen/ members)"""
+    p = os.path.join(TH, rel + ".v")
+    if rel in seen:
+        return
+    seen.add(rel)
+    if not os.path.exists(p):          # Gen/*.v are regenerated on every run and git-ignored
+        return
+    src = re.sub(r"\(\*.*?\*\)", "", open(p).read(), flags=re.S)
+    for imp in re.findall(r"Require\s+(?:Import\s+|Export\s+)?(.*?)\.(?=\s|$)", src, flags=re.S):
+        for name in imp.split():
+            name = name.replace("Dimod.", "")
+            if re.match(r"^(Base|Model|Proofs|Gen|Props)\.", name):
+                deps(name.replace(".", "/"), seen)
+
+
+def model_files(pid):
+    seen = set()
+    deps("Props/" + pid, seen)
+    groups = {}
+    for r in sorted(seen):
+        d, f = r.split("/")
+        if d in ("Model", "Gen"):
+            groups.setdefault(d, []).append(f)
+    return " + ".join("%s/{%s}.v" % (d, ",".join(fs)) for d, fs in groups.items())
 
 
 def ntheorems(pid):
@@ -37,7 +63,7 @@ for pid in ["C%02d" % i for i in range(1, 21)]:
     total += n
     note = claims[pid]['note']
     mm = re.search(r"Models?: ([^.]*\.v[^.;]*)", note)
-    models = MODELS.get(pid) or (mm.group(1) if mm else '-')
+    models = model_files(pid) or (mm.group(1) if mm else '-')
     partial = "; ".join(getattr(m, 'PARTIAL', []) or [])[:700].replace('|', '/').replace('\n', ' ') or "-"
     out.append(f"| {pid} | {models} | {n} | {partial} |\n")
 nsound = ntheorems("Sound") + ntheorems("Comb")
@@ -101,10 +127,10 @@ for d in sorted(glob.glob(os.path.join(ROOT, 'seeded', '*', '*'))):
 EARLY_MISSED = {('C02', 'm1'), ('C02', 'm2')}
 nmiss = sum(1 for p, k, m in rows if 'first_check_run' in m or (p, k) in EARLY_MISSED)
 ncaught_now = sum(1 for p, k, m in rows if (m.get('check_run') or {}).get('caught'))
-out.append(f"\n### 10.4 Seeded changes (independent sub-agents, `seeded/<id>/m<k>/` first round, `r2m<k>/` second round)\n\n"
+out.append(f"\n### 10.4 Seeded changes (independent sub-agents, `seeded/<id>/m<k>/` first round, `r2m<k>/` second, `r3m<k>/` third)\n\n"
            "For every property a fresh sub-agent that saw only the property text and its own worktree of /repo produced three changes that "
-           "compile, pass the 2911 tests and break the property, each with a demo; a second round (after the repairs) asked three more per property, "
-           "different from the first. Each was re-validated here with `harness/seed_eval.py` "
+           "compile, pass the 2911 tests and break the property, each with a demo; a second and a third round (after the repairs) asked three more per property each, "
+           "different from the earlier ones (the agent was given one-line summaries of those to avoid). Each was re-validated here with `harness/seed_eval.py` "
            "(patch applies to a throw-away worktree, demo passes unchanged / fails changed, suite passes on the changed tree) and the quick check was "
            f"run against it (`VERIF_REPO=<worktree> ./check Cxx`). {len(rows)} changes in total; {len(rows) - nmiss} were caught by the checks as they stood when the change arrived, "
            f"{nmiss} were missed and led to the strengthening listed below; {ncaught_now} of {len(rows)} are recorded as caught now (meta.json `check_run.caught`).\n\n"
@@ -131,6 +157,17 @@ of two Variables objects is order sensitive), C14 (`append_variables` into narro
 / `make_quadratic_cqm` with a supplied model of the same or the other vartype holding couplings), C18 (expression
 views differing only in zero-bias variables), C19 (`add_discrete` from comparisons/models with every
 `check_overlaps`/`copy` combination).
+Round 3 (61 changes, 20 missed on arrival): C01 (CQM expressions evaluated after a remove/fix history under a random
+parent variable order; DQM interactions set case pair by case pair in shuffled order; the deprecated `(mapping, labels)`
+sample form), C02 (unsigned/bool/float sample storage in `SampleSet.change_vartype`), C03 (range-labelled CQMs on the
+copying path; BQMs fixed through the opposite-vartype view), C04 (every iterable-valued argument as list / tuple / set /
+dict view / one-shot generator), C07 (non-default `rtol`/`atol` in `ExactCQMSolver`; initial states as dicts in differing
+key orders), C08 (wide integer variables with unsigned sample arrays of every width), C09 (NumPy-integer labels compared
+type-aware and byte-for-byte; `REAL_INTERACTIONS` models), C11 (sparse non-range and shuffled integer label sets), C13
+(pairs of distinct labels with equal hashes: -1/-2, (-1,)/(-2,); slice probes), C14 (values at every integer-width
+boundary in `as_samples`), C15 (integer labels mixed with their `str()` forms), C16 (DQM energies recorded before/after
+the call and tied to the coefficients in Coq; constraints that leave interacting variables out), C19 (`concatenate` with
+column-permuted partners, every input dumped afterwards; neutral-operand arithmetic `0 + a`, `sum([a])`), C20 (see below).
 C02 m1 and C11 m1 no longer applied after the repair commits and were re-applied by hand to the repaired code
 (`rebased` in their meta.json). Besides these, every builder planted 3-13 mutants of its own while building
 (about 100 in total, all but a few provably equivalent ones caught), and every check was run against the un-repaired
